@@ -173,13 +173,22 @@ def r02_3(ctx):
     ctx.need(len(preds) >= 6, f"send predicates in dispatch (found {sorted(preds)})")
     pcalls = {p.callee_name(c) for _, c, *_ in p.calls()}
     pleafs = set()
-    for bi, bl in enumerate(p.blocks):
-        if bl['cl']:
-            continue
-        for si, s in enumerate(bl['s']):
-            if s[0] == 'a':
-                for l in leafs(F.origin.rvalue(p, s[2], bi, si, 0, None)):
-                    pleafs.add(l)
+
+    def collect(y, depth):
+        for bi, bl in enumerate(y.blocks):
+            if bl['cl']:
+                continue
+            for si, s in enumerate(bl['s']):
+                if s[0] == 'a':
+                    for l in leafs(F.origin.rvalue(y, s[2], bi, si, 0, None)):
+                        pleafs.add(l)
+        if depth < 2:
+            # what poll_at reads through its own `&self` helpers counts as read by poll_at
+            for _, c, *_ in y.calls():
+                cb = F.bodies.get(y.callee_name(c) or '')
+                if cb is not None and cb.meta.get('impl_self') in (S, TM) and cb.nargs >= 1 and not cb.locals[1]['ty'].startswith('&mut'):
+                    collect(cb, depth + 1)
+    collect(p, 0)
     for nm, key in sorted(preds.items()):
         if key in pcalls:
             ctx.ok(('mirror', nm, 'called'), sample=dict(predicate=nm, poll_at='calls it'))
